@@ -463,7 +463,15 @@ func (l *StatefulLexer) getPattern(candidate compiledRule) (*regexp.Regexp, erro
 
 // BackrefRegex returns a compiled regular expression with backreferences replaced by groups.
 func BackrefRegex(backrefCache *sync.Map, input string, groups []string) (*regexp.Regexp, error) {
-	key := input + "\000" + strings.Join(groups, "\000")
+	// Every part is length-prefixed: a captured group may contain any byte, including the separator,
+	// so merely joining the parts would let different (pattern, groups) share a cache entry.
+	var kb strings.Builder
+	for _, part := range append([]string{input}, groups...) {
+		kb.WriteString(strconv.Itoa(len(part)))
+		kb.WriteByte(':')
+		kb.WriteString(part)
+	}
+	key := kb.String()
 	cached, ok := backrefCache.Load(key)
 	if ok {
 		return cached.(*regexp.Regexp), nil
